@@ -1,7 +1,18 @@
 import KcpVerif.Model.Kcp
-/-! C01 — reliable ordered stream: the reader sees a prefix of what was written. -/
+import KcpVerif.Lemmas.C01Ops
+/-!
+C01 — reliable ordered stream: the reader sees a prefix of what was written.
+Protocol-core part (`C01_core`, DESIGN.md 7.1 items 1–4) on the model `Model/Kcp.lean` of kcp.go.
+
+Formulation.  `G : U32 → Content` is the genuine content function: the `(frg, data)` pair the peer
+assigned to 32-bit sequence number `sn`.  That `G` is a function of the 32-bit number IS the range
+hypothesis (item 4): no two different segments that the network may still deliver share a 32-bit
+sequence number.  The adversary (`OpGenuine`) may drop, duplicate, reorder, delay and replay
+datagrams, truncate them, glue them together, and forge every ACK / WASK / WINS segment and every
+header field of a PUSH segment other than `(sn, frg, len, payload)`.
+-/
 namespace KcpVerif.Props
-open KcpVerif KcpVerif.Gen KcpVerif.Kcp
+open KcpVerif KcpVerif.Gen KcpVerif.Kcp KcpVerif.Frame KcpVerif.Recv KcpVerif.C01
 
 /-- `Recv` returns exactly the bytes `PeekSize` announced: the merge loop pops the fragments that
 `peekSum` summed (up to and including the first `frg = 0`). -/
@@ -16,14 +27,97 @@ theorem C01_popMsg_length (q : List Seg) : (popMsg q).data.length = peekSum q :=
 
 /-- the merge loop returns the concatenation of a prefix of the queue and leaves the rest -/
 theorem C01_popMsg_split (q : List Seg) :
-    ∃ n, (popMsg q).data = ((q.take n).map (·.data)).flatten ∧ (popMsg q).rest = q.drop n := by
-  induction q with
-  | nil => exact ⟨0, rfl, rfl⟩
-  | cons s rest ih =>
-    unfold popMsg
-    split
-    · exact ⟨1, by simp, by simp⟩
-    · obtain ⟨n, h1, h2⟩ := ih
-      exact ⟨n + 1, by simp [h1], by simp [h2]⟩
+    ∃ n, (popMsg q).data = ((q.take n).map (·.data)).flatten ∧ (popMsg q).rest = q.drop n :=
+  ⟨popCount q, popMsg_data q, popMsg_rest q⟩
+
+/-! ## Receive side (item 3) -/
+
+/-- **Receive-side invariant in every reachable state.**  Start from any fresh core (`Kcp.new` or any
+other state with empty queues: the initial `rcv_nxt` is arbitrary), run ANY sequence of operations
+with arbitrary arguments in which every `input` datagram has genuine PUSH frames.  Then there is `n`
+with `rcv_nxt = sn0 + n`, `delivered ++ rcv_queue = [G sn0 … G (sn0+n-1)]`, and every buffered
+segment is genuine, at or after `rcv_nxt`, the buffer strictly sorted (hence duplicate free). -/
+theorem C01_recv_invariant (G : U32 → Content) (k0 : Kcp) (hf : Fresh k0) (ops : List Op)
+    (hg : ∀ op ∈ ops, OpGenuine G k0.conv op) :
+    ∃ n, InvR G k0.rcv_nxt (run { k := k0 } ops).k (run { k := k0 } ops).dl n := by
+  obtain ⟨n, _, h⟩ := run_invRG ops { k := k0 } 0 (fresh_invRG G k0 hf) hg
+  exact ⟨n, h.inv⟩
+
+/-- **The reader sees a prefix of the genuine stream.**  In every reachable state the byte strings
+returned by all successful `Recv` calls so far, concatenated, are exactly the payloads of the first
+`m` genuine segments `G sn0 … G (sn0+m-1)`, where `m ≤ n` = the number of segments the core has
+accepted in order: nothing lost, duplicated, reordered or altered, whatever the network did. -/
+theorem C01_recv_in_order (G : U32 → Content) (k0 : Kcp) (hf : Fresh k0) (ops : List Op)
+    (hg : ∀ op ∈ ops, OpGenuine G k0.conv op) :
+    ∃ n m, m ≤ n ∧ (run { k := k0 } ops).k.rcv_nxt = k0.rcv_nxt + BitVec.ofNat 32 n ∧
+      (run { k := k0 } ops).dl = gRange G k0.rcv_nxt m ∧
+      (run { k := k0 } ops).got.flatten = bytesOf (gRange G k0.rcv_nxt m) ∧
+      (run { k := k0 } ops).k.rcv_queue.map content = (gRange G k0.rcv_nxt n).drop m := by
+  obtain ⟨n, _, h⟩ := run_invRG ops { k := k0 } 0 (fresh_invRG G k0 hf) hg
+  have hc := h.inv.count
+  have hd : (run { k := k0 } ops).dl = gRange G k0.rcv_nxt (run { k := k0 } ops).dl.length := by
+    rw [← gRange_take G k0.rcv_nxt n _ (by omega), ← h.inv.pre, List.take_left]
+  refine ⟨n, (run { k := k0 } ops).dl.length, by omega, h.inv.nxt, hd, ?_, ?_⟩
+  · rw [h.got]; exact congrArg bytesOf hd
+  · rw [← h.inv.pre, List.drop_left]
+
+/-- **Message boundaries.**  In every reachable state whose accepted genuine prefix has a well-formed
+fragment countdown (`FrgOk`: what `Send` produces — see `C01_send_frgOk`), a successful `Recv` with any
+buffer length returns exactly one whole message: the payloads of the `f + 1` genuine segments
+`m … m+f` following the `m` segments delivered before, where `f` is the fragment number of segment
+`m`; segments `m … m+f-1` have `frg ≠ 0` and segment `m+f` is the first with `frg = 0`. -/
+theorem C01_msg_boundaries (G : U32 → Content) (k0 : Kcp) (hf : Fresh k0) (ops : List Op)
+    (hg : ∀ op ∈ ops, OpGenuine G k0.conv op) (buflen : Nat)
+    (hok : 0 ≤ (recv (run { k := k0 } ops).k buflen).n) :
+    ∃ n, (run { k := k0 } ops).k.rcv_nxt = k0.rcv_nxt + BitVec.ofNat 32 n ∧
+      (FrgOk G k0.rcv_nxt n →
+        ∃ j, j = (G (k0.rcv_nxt + BitVec.ofNat 32 (run { k := k0 } ops).dl.length)).1.toNat + 1 ∧
+          (run { k := k0 } ops).dl.length + j ≤ n ∧
+          (recv (run { k := k0 } ops).k buflen).data =
+            bytesOf ((gRange G k0.rcv_nxt ((run { k := k0 } ops).dl.length + j)).drop
+              (run { k := k0 } ops).dl.length) ∧
+          (∀ i, i + 1 < j →
+            (G (k0.rcv_nxt + BitVec.ofNat 32 ((run { k := k0 } ops).dl.length + i))).1 ≠ 0) ∧
+          (G (k0.rcv_nxt + BitVec.ofNat 32 ((run { k := k0 } ops).dl.length + j - 1))).1 = 0) := by
+  obtain ⟨n, _, h⟩ := run_invRG ops { k := k0 } 0 (fresh_invRG G k0 hf) hg
+  refine ⟨n, h.inv.nxt, fun hfo => ?_⟩
+  obtain ⟨j, _, hle, _, hj, hdata, hmap, hne, hz⟩ := recv_msg h.inv hfo buflen hok
+  refine ⟨j, hj, hle, ?_, hne, hz⟩
+  rw [hdata, take_map_data, hmap]
+
+/-- **Nothing deliverable is stuck** (the receive heap's head is its minimum): in every reachable
+state, right after an `input` or a successful `recv`, either the delivery queue is full
+(`rcv_queue.length ≥ rcv_wnd`) or the segment `rcv_nxt` is not in `rcv_buf`. -/
+theorem C01_moveReady_complete (G : U32 → Content) (k0 : Kcp) (hf : Fresh k0) (ops : List Op)
+    (hg : ∀ op ∈ ops, OpGenuine G k0.conv op) :
+    (run { k := k0 } ops).k.rcv_wnd.toNat ≤ (moveReady (run { k := k0 } ops).k).rcv_queue.length ∨
+      ∀ s ∈ (moveReady (run { k := k0 } ops).k).rcv_buf, s.sn ≠ (moveReady (run { k := k0 } ops).k).rcv_nxt := by
+  obtain ⟨n, _, h⟩ := run_invRG ops { k := k0 } 0 (fresh_invRG G k0 hf) hg
+  obtain ⟨_, _, _, hr⟩ := moveReady_inv h.inv
+  exact hr
+
+/-! ### non-vacuity: a concrete reordered, duplicated delivery of a two-fragment message -/
+
+/-- a datagram with one PUSH segment `sn`, fragment number `frg`, one payload byte -/
+def C01_exDgram (sn frg : Nat) (b : UInt8) : Bytes :=
+  encodeHdr 7 (BitVec.ofNat 8 IKCP_CMD_PUSH) (BitVec.ofNat 8 frg) 32 0 (BitVec.ofNat 32 sn) 0 1 ++ [b]
+
+def C01_exG : U32 → Content := fun sn =>
+  if sn = 0 then (1, [0xBB]) else if sn = 1 then (0, [0xAA]) else if sn = 2 then (0, [0xCC]) else (0, [])
+
+/-- segment 1 arrives first, twice, glued to segment 2; then segment 0 -/
+def C01_exOps : List Op :=
+  [.input (C01_exDgram 1 0 0xAA ++ C01_exDgram 2 0 0xCC) true false 0, .recv 10,
+   .input (C01_exDgram 1 0 0xAA) true true 5, .input (C01_exDgram 0 1 0xBB) true false 9,
+   .recv 1, .recv 10, .update 100, .recv 10, .recv 10]
+
+set_option maxRecDepth 100000 in
+example : Fresh (Kcp.new 7) ∧ (∀ op ∈ C01_exOps, OpGenuine C01_exG (Kcp.new 7).conv op) ∧
+    (run { k := Kcp.new 7 } C01_exOps).got = [[0xBB, 0xAA], [0xCC]] ∧
+    FrgOk C01_exG 0 3 := by
+  refine ⟨fresh_new 7, by decide, by decide, ?_⟩
+  intro i hi
+  have : i = 0 ∨ i = 1 ∨ i = 2 := by omega
+  rcases this with h | h | h <;> subst h <;> decide
 
 end KcpVerif.Props
